@@ -21,6 +21,10 @@
 (*   SizeAtWork  while tasks are being submitted / awaited there are at    *)
 (*               most n_jobs worker processes                              *)
 (*   Ends        every call ends (liveness)                                *)
+(* A call may submit nothing (empty input, a bare `with Parallel(...)`      *)
+(* block): the executor then exists without its manager thread and without *)
+(* workers, and the next resize only records the new size (RecordEarly =    *)
+(* TRUE, current; FALSE = the early return forgets it: sensitivity).        *)
 (* StopSurplus = FALSE (sensitivity): a resize that lowers _max_workers    *)
 (* without stopping the surplus workers lets more than n_jobs tasks run.   *)
 (* WaitShrunk = FALSE (sensitivity): not waiting for the surplus workers   *)
@@ -32,7 +36,7 @@ CONSTANTS MaxW,         \* largest n_jobs, e.g. 3
           NT,           \* tasks per call
           Calls,        \* length of the history
           Timeouts,     \* idle workers leaving on their own (environment)
-          StopSurplus, WaitShrunk,
+          StopSurplus, WaitShrunk, RecordEarly,
           Gen           \* TRUE: print the histories of n_jobs values (replayed on the real backends)
 
 W == 1..MaxW
@@ -41,14 +45,16 @@ VARIABLES ws,        \* [W -> "absent" | "idle" | "running"]
           maxw,      \* executor._max_workers (0 = no executor yet)
           want,      \* n_jobs of the current call
           pc,        \* "idle" | "mark" | "shrunk" | "adjust" | "submit" | "retrieve"
+          mgr,       \* the executor's manager thread exists (started by the first submit)
+          nt,        \* tasks of the current call (0: a call that submits nothing)
           call, sub, done, touts, hist
-vars == <<ws, queue, maxw, want, pc, call, sub, done, touts, hist>>
+vars == <<ws, queue, maxw, want, pc, mgr, nt, call, sub, done, touts, hist>>
 
 Live == {i \in W : ws[i] # "absent"}
 Running == {i \in W : ws[i] = "running"}
 
 Init == /\ ws = [i \in W |-> "absent"] /\ queue = <<>> /\ maxw = 0 /\ want = 0 /\ pc = "idle"
-        /\ call = 0 /\ sub = 0 /\ done = 0 /\ touts = 0 /\ hist = <<>>
+        /\ mgr = FALSE /\ nt = 0 /\ call = 0 /\ sub = 0 /\ done = 0 /\ touts = 0 /\ hist = <<>>
 
 \* up to k absent slots become idle workers
 SpawnUpTo(k) == LET need == k - Cardinality(Live)
@@ -57,16 +63,18 @@ SpawnUpTo(k) == LET need == k - Cardinality(Live)
                    ELSE LET pick == CHOOSE S \in SUBSET absent : Cardinality(S) = (IF need <= Cardinality(absent) THEN need ELSE Cardinality(absent))
                         IN [i \in W |-> IF i \in pick THEN "idle" ELSE ws[i]]
 
-Begin(n) ==
+Begin(n, k) ==
   /\ pc = "idle" /\ call < Calls
-  /\ call' = call + 1 /\ want' = n /\ sub' = 0 /\ done' = 0 /\ hist' = Append(hist, n)
+  /\ call' = call + 1 /\ want' = n /\ nt' = k /\ sub' = 0 /\ done' = 0 /\ hist' = Append(hist, <<n, k>>)
   /\ IF maxw = 0 \/ maxw = n
-     THEN /\ maxw' = n /\ pc' = "submit" /\ UNCHANGED <<ws, queue>>          \* new executor, or same size: nothing to resize
-     ELSE \/ /\ pc' = "mark" /\ UNCHANGED <<maxw, ws, queue>>                  \* same executor arguments: resize
+     THEN /\ maxw' = n /\ pc' = "submit" /\ UNCHANGED <<ws, queue, mgr>>     \* new executor, or same size: nothing to resize
+     ELSE \/ /\ mgr /\ pc' = "mark" /\ UNCHANGED <<maxw, ws, queue, mgr>>     \* same executor arguments: resize
+          \* ... of an executor that never started its manager thread: no worker exists, the new size is just recorded
+          \/ /\ ~mgr /\ pc' = "submit" /\ maxw' = (IF RecordEarly THEN n ELSE maxw) /\ UNCHANGED <<ws, queue, mgr>>
           \* joblib derives the workers' environment (OMP_NUM_THREADS = cpus // n_jobs ...) from n_jobs unless
           \* inner_max_num_threads or the variables themselves are set: other arguments -> the executor is shut down
           \* (its workers exit) and replaced by a new one of size n
-          \/ /\ ws' = [i \in W |-> "absent"] /\ queue' = <<>> /\ maxw' = n /\ pc' = "submit"
+          \/ /\ ws' = [i \in W |-> "absent"] /\ queue' = <<>> /\ maxw' = n /\ pc' = "submit" /\ mgr' = FALSE
   /\ UNCHANGED touts
 
 Mark ==
@@ -75,46 +83,46 @@ Mark ==
   /\ LET surplus == Cardinality(Live) - want
      IN queue' = IF StopSurplus /\ surplus > 0 THEN queue \o [k \in 1..surplus |-> "N"] ELSE queue
   /\ pc' = "shrunk"
-  /\ UNCHANGED <<ws, want, call, sub, done, touts, hist>>
+  /\ UNCHANGED <<ws, want, mgr, nt, call, sub, done, touts, hist>>
 
 Shrunk ==
   /\ pc = "shrunk"
   /\ (WaitShrunk /\ StopSurplus) => Cardinality(Live) <= want
   /\ pc' = "adjust"
-  /\ UNCHANGED <<ws, queue, maxw, want, call, sub, done, touts, hist>>
+  /\ UNCHANGED <<ws, queue, maxw, want, mgr, nt, call, sub, done, touts, hist>>
 
 Adjust ==
   /\ pc = "adjust"
   /\ ws' = SpawnUpTo(maxw) /\ pc' = "submit"
-  /\ UNCHANGED <<queue, maxw, want, call, sub, done, touts, hist>>
+  /\ UNCHANGED <<queue, maxw, want, mgr, nt, call, sub, done, touts, hist>>
 
 Submit ==         \* one task; every submit makes sure the executor has its workers (_ensure_executor_running)
-  /\ pc = "submit" /\ sub < NT
+  /\ pc = "submit" /\ sub < nt
   /\ queue' = Append(queue, "T") /\ sub' = sub + 1
-  /\ ws' = SpawnUpTo(maxw)
-  /\ UNCHANGED <<maxw, want, pc, call, done, touts, hist>>
+  /\ ws' = SpawnUpTo(maxw) /\ mgr' = TRUE
+  /\ UNCHANGED <<maxw, want, pc, nt, call, done, touts, hist>>
 Submitted ==
-  /\ pc = "submit" /\ sub = NT /\ pc' = "retrieve"
-  /\ UNCHANGED <<ws, queue, maxw, want, call, sub, done, touts, hist>>
+  /\ pc = "submit" /\ sub = nt /\ pc' = "retrieve"
+  /\ UNCHANGED <<ws, queue, maxw, want, mgr, nt, call, sub, done, touts, hist>>
 Retrieve ==
-  /\ pc = "retrieve" /\ done = NT /\ pc' = "idle"
-  /\ UNCHANGED <<ws, queue, maxw, want, call, sub, done, touts, hist>>
+  /\ pc = "retrieve" /\ done = nt /\ pc' = "idle"
+  /\ UNCHANGED <<ws, queue, maxw, want, mgr, nt, call, sub, done, touts, hist>>
 
 Take(i) ==
   /\ ws[i] = "idle" /\ queue # <<>>
   /\ ws' = [ws EXCEPT ![i] = IF Head(queue) = "N" THEN "absent" ELSE "running"]
   /\ queue' = Tail(queue)
-  /\ UNCHANGED <<maxw, want, pc, call, sub, done, touts, hist>>
+  /\ UNCHANGED <<maxw, want, pc, mgr, nt, call, sub, done, touts, hist>>
 Finish(i) ==
   /\ ws[i] = "running"
   /\ ws' = [ws EXCEPT ![i] = "idle"] /\ done' = done + 1
-  /\ UNCHANGED <<queue, maxw, want, pc, call, sub, touts, hist>>
+  /\ UNCHANGED <<queue, maxw, want, pc, mgr, nt, call, sub, touts, hist>>
 IdleTimeout(i) ==
   /\ touts < Timeouts /\ ws[i] = "idle" /\ pc = "idle"
   /\ ws' = [ws EXCEPT ![i] = "absent"] /\ touts' = touts + 1
-  /\ UNCHANGED <<queue, maxw, want, pc, call, sub, done, hist>>
+  /\ UNCHANGED <<queue, maxw, want, pc, mgr, nt, call, sub, done, hist>>
 
-Next == \/ \E n \in W : Begin(n)
+Next == \/ \E n \in W, k \in {0, NT} : Begin(n, k)
         \/ Mark \/ Shrunk \/ Adjust \/ Submit \/ Submitted \/ Retrieve
         \/ \E i \in W : Take(i) \/ Finish(i) \/ IdleTimeout(i)
 Spec == Init /\ [][Next]_vars /\ WF_vars(Mark \/ Shrunk \/ Adjust \/ Submit \/ Submitted \/ Retrieve)
@@ -126,5 +134,5 @@ NoLostSentinel == pc = "idle" => \A k \in 1..Len(queue) : queue[k] # "N"     \* 
 Ends == []<>(pc = "idle")
 
 Emit == (Gen /\ call = Calls /\ pc = "submit" /\ sub = 0) => PrintT(ToJson(hist))
-View == <<ws, queue, maxw, want, pc, call, sub, done, touts>>
+View == <<ws, queue, maxw, want, pc, mgr, nt, call, sub, done, touts>>
 =============================================================================
